@@ -33,6 +33,8 @@ fn run(a: &[String]) -> String {
         "frame_depth" => scenarios::frame_depth(&a[1], &a[2]),
         "handler_flag" => scenarios::handler_flag(&a[1], a[2] == "true"),
         "has_storage_layer" => scenarios::has_storage_layer(&a[1]),
+        "journal_clear_leak" => scenarios::journal_clear_leak(),
+        "floor_gas_used" => scenarios::floor_gas_used(),
         "reward_paid" => scenarios::reward_paid(&a[1]),
         "selfdestruct_sum" => scenarios::selfdestruct_sum(),
         "reimburse_exact_gas" => scenarios::reimburse_exact_gas(),
